@@ -80,6 +80,7 @@ func cmdRun(args []string) int {
 	initRun := fs.String("initrun", "", "extra package prefixes to initialise")
 	prof := fs.String("cpuprofile", "", "write cpu profile")
 	subst := fs.String("subst", "", "target=stub,target=stub function substitutions")
+	schedOn := fs.Bool("sched", false, "enable the cooperative scheduler")
 	fs.Parse(args)
 	if *prof != "" {
 		f, _ := os.Create(*prof)
@@ -113,6 +114,7 @@ func cmdRun(args []string) int {
 	if *initRun != "" {
 		hc.InitRun = strings.Split(*initRun, ",")
 	}
+	hc.Sched = *schedOn
 	if *subst != "" {
 		hc.Subst = map[string]string{}
 		for _, kv := range strings.Split(*subst, ",") {
